@@ -135,7 +135,7 @@ M = {
     # ---- C05 ---
     "rdb-commit-trial-row-before-template-fields": ("optuna/storages/_rdb/storage.py",
         "        session.flush()\n\n        if template_trial is not None:",
-        "        session.flush()\n        session.commit()\n\n        if template_trial is not None:", ["C05"]),----------------------------------------------------------------------------
+        "        session.flush()\n        session.commit()\n\n        if template_trial is not None:", ["C05"]),
     "file-unfix-torn-tail": ("optuna/storages/journal/_file.py",
         "            self._drop_unterminated_tail()\n", "", ["C05"]),
     "journal-ack-before-write": ("optuna/storages/journal/_storage.py",
